@@ -19,12 +19,64 @@ def _havoc_view(S, env):
         raise NotImplementedError("concrete stream havoc is defined in contracts/inputstream.py")
 
 
+def _char_native(S, env, I):
+    s = env.d["self"]
+    if not s.fields.get("is_abstract"):
+        raise NotImplementedError
+    z3 = S.z3
+    v = s.fields["ghost_view"]
+    if isinstance(v, str):
+        if v == "":
+            return None
+        s.fields["ghost_view"] = v[1:]
+        return v[0]
+    if S.ctx.branch(z3.Length(v.z) == 0):
+        s.fields["ghost_view"] = ""
+        return None
+    c = S.char("c")
+    t = S.str("view'")
+    S.assume(v.z == z3.Concat(c.z, t.z))
+    s.fields["ghost_view"] = t
+    return c
+
+
+def _unget_native(S, env, I):
+    s = env.d["self"]
+    if not s.fields.get("is_abstract"):
+        raise NotImplementedError
+    ch = env.d["char"]
+    if ch is not None:
+        s.fields["ghost_view"] = I.binop_add(ch, s.fields["ghost_view"])
+    return None
+
+
+def _charsuntil_native(S, env, I):
+    s = env.d["self"]
+    if not s.fields.get("is_abstract"):
+        raise NotImplementedError
+    z3 = S.z3
+    chars = env.d["characters"]
+    opposite = env.d.get("opposite", False)
+    chars = "".join(sorted(chars)) if not isinstance(chars, str) else chars
+    v = s.fields["ghost_view"]
+    p = S.str("run")
+    q = S.str("view'")
+    inside, outside = S.charset(chars), S.not_charset(chars)
+    K, notK = (inside, outside) if opposite else (outside, inside)
+    S.assume(S.zs(v) == z3.Concat(p.z, q.z))
+    S.assume(z3.InRe(p.z, z3.Star(K)))
+    S.assume(z3.InRe(q.z, z3.Union(z3.Re(z3.StringVal("")), z3.Concat(notK, z3.Star(z3.AllChar(z3.ReSort(z3.StringSort())))))))
+    s.fields["ghost_view"] = q
+    return p
+
+
 @contract(STREAM + ".char")
 class Char:
     props = ("C05", "C02")
     abstract_only = True
 
     havoc = _havoc_view
+    assume_native = _char_native
 
     def result(S, env):
         return S.one_of(None, lambda: S.char("c"))
@@ -43,6 +95,7 @@ class Unget:
     abstract_only = True
 
     havoc = _havoc_view
+    assume_native = _unget_native
 
     @ensures("C05", "C02")
     def puts_back(old, self, char, result):
@@ -57,6 +110,7 @@ class CharsUntil:
     abstract_only = True
 
     havoc = _havoc_view
+    assume_native = _charsuntil_native
 
     def result(S, env):
         return S.str("run")
